@@ -18,6 +18,7 @@ class Stats:
         self.vc_calls = 0
         self.unknown_feas = 0
         self.model_hits = 0
+        self.cross = {"checked": 0, "agree": 0, "disagree": 0, "unknown": 0, "error": 0, "seconds": 0.0}
 
 
 STATS = Stats()
@@ -370,6 +371,13 @@ def discharge(vc: VC):
     vc.reason = how
     if r == z3.unsat:
         vc.verdict = "unsat"
+        if CROSSCHECK and STATS.cross["checked"] < CROSS_MAX and not any(_nonlinear(a) for a in vc.pc) and not _nonlinear(vc.goal):
+            c = _cvc5_says(asserts, ctx)
+            STATS.cross["checked"] += 1
+            STATS.cross[c] += 1
+            if c == "disagree":
+                vc.verdict = "unknown"
+                vc.reason = "second solver (cvc5) reports sat where z3 reports unsat"
     elif r == z3.sat:
         vc.verdict = "sat"
         vc.model = TransModel(s.model(), ctx)
@@ -377,6 +385,31 @@ def discharge(vc: VC):
         vc.verdict = "unknown"
         vc.reason = s.reason_unknown() if s is not None else "unknown"
     return vc
+
+
+CROSSCHECK = os.environ.get("PYVC_CROSSCHECK") == "1"
+CROSS_MAX = int(os.environ.get("PYVC_CROSS_MAX", 150))      # per PO x shape task
+
+
+def _cvc5_says(asserts, ctx):
+    """re-decide a LINEAR obligation that z3 discharged with /usr/bin/cvc5 (independent implementation): agree / disagree / unknown"""
+    import subprocess, tempfile
+    t0 = time.time()
+    try:
+        sol = z3.Solver(ctx=ctx)
+        for a in asserts:
+            sol.add(a)
+        text = "(set-logic ALL)\n" + sol.to_smt2()
+        with tempfile.NamedTemporaryFile("w", suffix=".smt2", delete=True) as f:
+            f.write(text)
+            f.flush()
+            out = subprocess.run(["/usr/bin/cvc5", "--lang=smt2", "--tlimit=15000", f.name], capture_output=True, text=True, timeout=30).stdout.strip().splitlines()
+        res = out[0].strip() if out else "unknown"
+        return {"unsat": "agree", "sat": "disagree"}.get(res, "unknown")
+    except Exception:
+        return "error"
+    finally:
+        STATS.cross["seconds"] += time.time() - t0
 
 
 class Exploration:
